@@ -55,6 +55,16 @@ Check ==
               /\ Chk(e, "FilesClean", AllClean(F))
               \* (documented exception: a non-rotated file re-opened without append is truncated)
               /\ Chk(e, "EarlierRecordsKept", cc.clean \/ (~cc.rot /\ ~cc.append) \/ Ids(atcrash) \subseteq Ids(S))
+              \* "preserves all earlier records that the cleanup limit permits": after every call of the new logger
+              \* (direct mode: everything is on disk; otherwise at Stop) nothing is missing while there is room
+              \* under the limits
+              /\ IF cc.clean /\ Ok(e) /\ (Unbuffered(cc) \/ e.ev = "Stop")
+                 THEN LET surv == IF ~cc.rot /\ ~cc.append /\ newids' # {} THEN <<>> ELSE atcrash
+                          all == surv \o SelectSeq(acc', LAMBDA p : p[1] \in newids') IN
+                      /\ Chk(e, "KeptWhatLimitPermits",
+                             Len(S) >= Len(all) \/ Len(Plain(F)) + Len(Zipd(F)) >= KEff(cc) + M(cc))
+                      /\ Cnt(6, Len(S) < Len(all))
+                 ELSE TRUE
               /\ IF e.ev = "Stop" /\ Ok(e)
                  THEN /\ Chk(e, "NewRecordsPresent", cc.clean \/ newids' \subseteq Ids(S))
                       /\ Chk(e, "TailAfterRestart",
